@@ -364,8 +364,25 @@ fn lane_history_upgrades(ctx: &mut Ctx) {
                 break;
             }
             if h.rng.chance(1, 3) {
+                // on regtest (headers can be mined) half of the upgrades happen while announced
+                // headers are pending: they decide the sync gate and must survive
+                if h.net() == Network::Regtest && h.rng.chance(1, 2) {
+                    let n = h.rng.range(1, 6) as usize;
+                    let next = h.hidden_header_chain(n);
+                    let blobs: Vec<ic_btc_canister::types::BlockHeaderBlob> = next.iter().map(|x| crate::world::header_blob(x.clone())).collect();
+                    let r = crate::world::guarded(|| ic_btc_canister::with_state_mut(|s| ic_btc_canister::state::insert_next_block_headers(s, &blobs)));
+                    if r.is_trap() {
+                        ctx.violation("insert_next_block_headers trapped".into(), None, serde_json::json!({"log": h.log}));
+                        break;
+                    }
+                    h.note_announced(&next);
+                    if !crate::world::bookkeeping().next_by_hash.is_empty() {
+                        ctx.cov.count("c09_upgrades_with_pending_announced_headers");
+                    }
+                }
                 let o = SnapOpts { with_fees: true, with_utxos_length: false, max_c: 64 };
-                let before = snap::snapshot(&h, &o);
+                let mut before = snap::snapshot(&h, &o);
+                before.extend(snap::gate_probe(&h));
                 let ul_before = crate::world::info().ok().map(|i| i.utxos_length).unwrap_or(0);
                 let deltas: i64 = {
                     let bk = crate::world::bookkeeping();
@@ -383,7 +400,8 @@ fn lane_history_upgrades(ctx: &mut Ctx) {
                 if !h.upgrade(ctx) {
                     break;
                 }
-                let after = snap::snapshot(&h, &o);
+                let mut after = snap::snapshot(&h, &o);
+                after.extend(snap::gate_probe(&h));
                 ctx.cov.count("c09_before_after_snapshots_compared");
                 ctx.cov.count("c09_upgrade_in_phase_forked_history");
                 ctx.cov.eval(Some(mon::state_fp(&h, "c09")));
